@@ -432,6 +432,35 @@ def r8_prefix_rendering(ctx):
     ctx.check(has(fn, "string += _subs('..', infixes)"), a, "infix-of-separator", "the hydrate separator must be rendered from the infix table", node=fn)
 
 
+def r9_arms(ctx):
+    """which part of the split formula feeds which piece of the rendering; phase-index arms"""
+    fn = ctx.func(PARSING, "_formula_to_format")
+    a = PARSING + ":_formula_to_format"
+
+    def chk(frag, key, msg, scope=fn, anchor=a):
+        ctx.check(has(scope, frag), anchor, key, msg + " (expected `%s`)" % frag, node=scope)
+
+    chk("parts = _formula_to_parts(formula, prefixes.keys(), suffixes)", "split(formula,prefix-keys,suffixes)", "the formula is split with the prefix table's keys and the suffixes")
+    chk("if '·' in parts[0]: stoichs = parts[0].split('·') else: stoichs = parts[0].split('..')", "hydrate-parts-of-stoichiometry", "hydrate parts come from the stoichiometry part (index 0)")
+    chk("for idx, stoich in enumerate(stoichs): if idx == 0: m = 1 else: m, stoich = _get_leading_integer(stoich) string += _subs('..', infixes)", "first-part-bare",
+        "the first part has no multiplier and no separator; every later part gets the separator symbol and its leading count")
+    chk("if parts[1] is not None: chg = _get_charge(parts[1])", "charge-from-part-1", "the charge token is rendered exactly when the charge part (index 1) is present")
+    ret = [n for n in walk_shallow(fn) if isinstance(n, ast.Return)][-1]
+    ctx.check(has(ret, "return pre_str + string + ''.join(parts[3])", scope=fn), a, "prefix+body+suffix", "result is rendered prefixes, body, then the suffixes verbatim", node=ret)
+    fl = ctx.func(PARSING, "formula_to_latex")
+    chk("re.sub('([{}])', '\\\\\\\\\\\\1', formula) if re.search('[{}]', formula) else formula", "braces-escaped", "curly brackets of the formula are escaped for LaTeX (and only those)", scope=fl, anchor=PARSING + ":formula_to_latex")
+    sp = ctx.func(CHEM, "Species.from_formula")
+    a2 = CHEM + ":Species.from_formula"
+    chk("if 'phase_idx' in kwargs: p_i = kwargs.pop('phase_idx') else: p_i = None", "explicit-phase-wins", "an explicit phase_idx is used as given; otherwise it is derived from the suffix", scope=sp, anchor=a2)
+    chk("for k, v in phases.items(): if formula.endswith(k): p_i = v break", "mapping-arm", "with a mapping the suffix selects its value", scope=sp, anchor=a2)
+    chk("if p_i is None: if default_phase_idx is None: raise ValueError('Could not determine phase_idx') else: p_i = default_phase_idx", "no-suffix->default-or-refuse",
+        "without a known suffix the default index is used, or the formula refused when there is no default", scope=sp, anchor=a2)
+    d = param_default(sp, "default_phase_idx")
+    ctx.check(d is not None and U(d) == "0", a2, "default-phase-0", "a formula without phase suffix is in phase 0 by default", node=sp)
+    d = param_default(sp, "phases")
+    ctx.check(d is not None and U(d) == "('(s)', '(l)', '(g)')", a2, "default-phases", "default phases are (s), (l), (g) -> 1, 2, 3", node=sp)
+
+
 RULES = [
     Rule("C13-R1", r1_greek, 100, "greek prefix tables vs unicodedata / html.entities / LaTeX macro names; key sets; infix tables"),
     Rule("C13-R2", r2_digits, 24, "subscript/superscript digit tables vs unicodedata"),
@@ -440,6 +469,7 @@ RULES = [
     Rule("C13-R5", r5_one_formula, 12, "from_formula derives names and composition from the same formula (suffixes=phases)"),
     Rule("C13-R6", r6_hydrate, 5, "hydrate handling identical in composition and rendering"),
     Rule("C13-R7", r7_count_token, 2, "renderer and parser count token: decimal alternative first"),
+    Rule("C13-R9", r9_arms, 11, "formula parts feed the intended pieces; phase-index arms and defaults"),
     Rule("C13-R8", r8_prefix_rendering, 3, "prefix rendering by direct lookup (or on a substring-free table)"),
 ]
 
